@@ -41,12 +41,17 @@ def impl(line):
             p = planar._pts(ts)
             return [(_coord(p[i]), _coord(p[i + 1])) for i in range(0, len(p), 2)]
         return tf(do_edges_intersect(edges(x), edges(y)))
-    A, B = planar.to_impl(planar.parse_shape(x)), planar.to_impl(planar.parse_shape(y))
-    if op == 'inter':
-        return tf(A.intersects_shape(B))
-    if op == 'contains':
-        return tf(A.contains_shape(B))
-    raise ValueError(op)
+    (A, dA), (B, dB) = planar.to_impl_live(planar.parse_shape(x), line), planar.to_impl_live(planar.parse_shape(y), line + '#')
+    if op not in ('inter', 'contains'):
+        raise ValueError(op)
+    ask = (lambda: A.intersects_shape(B)) if op == 'inter' else (lambda: A.contains_shape(B))
+    r1 = ask()
+    # observe - mutate - observe (see planar.to_impl_live)
+    what = f'{dA()} / {dB()}'
+    r2 = ask()
+    if r1 != r2:
+        return f'UNSTABLE {tf(r1)} then {tf(r2)} after {what}'
+    return tf(r1)
 
 
 def spec(line):
@@ -205,7 +210,24 @@ def derive(rng, A):
         m = ((a[0] + b[0]) / 2, (a[1] + b[1]) / 2)
         xs, ys = [p[0] for p in ring], [p[1] for p in ring]
         cx, cy = (min(xs) + max(xs)) / 2, (min(ys) + max(ys)) / 2
-        k = rng.choice([0, 1, 2, 3, 4, 5, 6, 6, 7, 7, 7, 8, 9, 10, 11]) if A.holes else rng.randrange(12)
+        k = rng.choice([0, 1, 2, 3, 4, 5, 6, 6, 7, 7, 7, 8, 9, 10, 11, 12, 12, 12]) if A.holes else rng.randrange(12)
+        if k == 12:  # straddles an edge of a hole without leaving the shell and without covering a hole vertex
+            h = A.holes[0][:-1]
+            j = rng.randrange(len(h))
+            ha, hb = h[j], h[(j + 1) % len(h)]
+            hm = ((ha[0] + hb[0]) / 2, (ha[1] + hb[1]) / 2)
+            nx, ny = -(hb[1] - ha[1]) / 8, (hb[0] - ha[0]) / 8
+            tx, ty = (hb[0] - ha[0]) / 8, (hb[1] - ha[1]) / 8
+            p0, p1 = (hm[0] - nx, hm[1] - ny), (hm[0] + nx, hm[1] + ny)
+            if rng.random() < 0.5:
+                p0, p1 = p1, p0
+            form = rng.randrange(3)
+            if form == 0:
+                return planar.PShape('line', pts=[p0, p1])
+            if form == 1:
+                return planar.PShape('poly', raw=[p0, (p1[0] + tx, p1[1] + ty), (p1[0] - tx, p1[1] - ty)])
+            xs2, ys2 = [p0[0], p1[0], hm[0] + tx, hm[0] - tx], [p0[1], p1[1], hm[1] + ty, hm[1] - ty]
+            return planar.PShape('box', nw=(min(xs2), max(ys2)), se=(max(xs2), min(ys2)))
         if k == 0:
             return planar.PShape('pt', pts=[v])
         if k == 1:
@@ -266,6 +288,16 @@ def derive(rng, A):
         if k == 3:
             return planar.PShape('line', pts=[m, (m[0] + F(3, 4), m[1] - F(1, 2))])
         return planar.PShape('line', pts=[b, (b[0] + F(1, 2), b[1] + F(1, 4))])
+    if A.kind == 'pt':
+        p = A.pts[0]
+        k = rng.randrange(5)
+        if k <= 1:
+            return planar.PShape('pt', pts=[p])                                    # the same place, another object
+        if k == 2:
+            return planar.PShape('line', pts=[(p[0] - F(1, 2), p[1] - F(1, 4)), p, (p[0] + F(3, 4), p[1])])
+        if k == 3:
+            return planar.PShape('poly', raw=[p, (p[0] + 1, p[1]), (p[0], p[1] + 1)])
+        return planar.PShape('box', nw=(p[0] - F(1, 2), p[1] + F(1, 2)), se=(p[0] + F(1, 2), p[1] - F(1, 2)))
     return rnd_shape(rng)
 
 
@@ -379,6 +411,35 @@ def check(run):
             if ans[ln].startswith('ERR') or ans[ln] == 'TIMEOUT':
                 run.report(ln.split()[0] + '/raises', f'a valid shape pair raises {ans[ln]}',
                            {'stream': 'shape-pairs', 'line': ln, 'impl': ans[ln], 'spec': 'T or F'})
+
+    # 3a. every kind against a coincident partner (itself re-built, one of its own vertices, a relational placement)
+    #     under EVERY combination of time bounds: the spatial predicates are time-free, whatever equality or membership
+    #     operator they are written with (seeded change C02-p3 compared two points with the dt-aware `==`)
+    lines3, base3 = [], {}
+    mk = {'pt': lambda: planar.PShape('pt', pts=[rnd_pt(rng, -1, 5)]), 'line': lambda: rnd_line(rng), 'box': lambda: rnd_box(rng),
+          'poly': lambda: rnd_poly(rng, holes_ok=False), 'polyh': lambda: next(q for q in iter(lambda: rnd_poly(rng), None) if q.holes)}
+    combos = list(itertools.product(DTS, DTS))
+    for kind, make in mk.items():
+        for rep in range(run.scale(1, 4)):
+            A = make()
+            partners = [with_dt(A, None), planar.PShape('pt', pts=[A.verts()[0]]), derive(rng, A)]
+            for B in partners:
+                for da, db in (combos if not run.quick else [c for c in combos if c[0] != c[1]][::2] + [(DTS[1], DTS[1])]):
+                    A2, B2 = with_dt(A, da), with_dt(B, db)
+                    for X, Y, X0, Y0 in ((A2, B2, A, B), (B2, A2, B, A)):
+                        for op in ('inter', 'contains'):
+                            ln = f'rel.{op} {X.tokens()} | {Y.tokens()}'
+                            lines3.append(ln)
+                            base3[ln] = f'rel.{op} {with_dt(X0, None).tokens()} | {with_dt(Y0, None).tokens()}'
+    plain = sorted(set(base3.values()))
+    outs3 = run.run_cases('coincident-pairs-all-time-bounds', lines3 + plain, impl, spec,
+                          tag=lambda ln, a: ['dtmatrix:' + ln.split()[1] + '-' + ln.split('|')[1].split()[0] + ':' + (a if a in 'TF' else 'ERR')])
+    ans3 = dict(zip(lines3 + plain, outs3))
+    for ln in lines3:
+        if ans3[ln] != ans3[base3[ln]]:
+            run.report('rel/time-dependent', f'{ln.split()[0]} answers {ans3[base3[ln]]} without time bounds but {ans3[ln]} with them',
+                       {'stream': 'coincident-pairs-all-time-bounds', 'line': ln, 'impl': ans3[ln], 'spec': ans3[base3[ln]],
+                        'without_time_bounds': base3[ln]})
 
     # 3b. the same pairs at other scales and places (dyadic scaling / translation keeps the arithmetic of the exact
     #     model valid; the 1e-10 rounding of the float code must stay inert down to metre-scale shapes)
